@@ -320,7 +320,7 @@ def _arg_transform(f, bb):
     return key, transform
 
 
-@rule("R-STACK-DUAL", ["C12"])
+@rule("R-STACK-DUAL", ["C12", "C01"])
 def r_stack_dual(cx):
     want = spec("stack_dual.json")
     for role, fn in (("fwd", "inner_op::stack::stack_fwd"), ("inv", "inner_op::stack::stack_inv")):
